@@ -313,7 +313,9 @@ class Array(Processor):
 
             # Skip redundant bits post decoding.
             if self.extensible and not ctx.is_encode:
-                ito = i + ahead * self.capacity
+                # The opponent's array occupies 16 bits of ahead flag plus `ahead`
+                # elements, each of the size just consumed per element.
+                ito = i + 16 + ahead * ((ctx.i - i - 16) // self.capacity)
                 if ito >= ctx.i:
                     ctx.i = ito
 
